@@ -62,7 +62,7 @@ const FORMULAS: &[&str] = &[
     "=Sheet1!$A$1:$B$2", "=R1C1", "=R[-1]C[2]", "=R[1]C:R[2]C[3]", "=RC", "=SUM(R1C1:R2C2)", "='It''s'!A1", "=1,5", "=SUM(1;2)",
     "=SUMA(A1;B2)", "=VERDADERO", "=#¡REF!", "=WENN(A1>1;2;3)", "=A1 + ", "=SUM(", "=IF(VLOOK", "=\"unterminated", "='unterminated",
     "=1..2", "=1e", "=1e+", "=$", "=A$", "=$A", "=XFD1048576", "=XFE1", "=A1048577", "=A99999999999", "=R99999999999C1", "=R[99999999999]C",
-    "=Sheet1!", "=!A1", "=[1]Sheet1!A1", "=A1:B", "=A:1", "=#", "=#N/", "=#NULL!", "=#SPILL!", "=#CALC!", "=#CIRC!", "=#DIV/0!",
+    "=VERDADERO$", "=ABCDEFGHIJKLMNOP1", "=$ZZZZZZZZZZ$1", "=Sheet1!", "=!A1", "=[1]Sheet1!A1", "=A1:B", "=A:1", "=#", "=#N/", "=#NULL!", "=#SPILL!", "=#CALC!", "=#CIRC!", "=#DIV/0!",
 ];
 
 fn random_unicode(r: &mut Rng, max_len: u64) -> String {
@@ -306,6 +306,24 @@ fn open_ended_range(s: &str) -> bool {
             return true;
         }
     }
+    // a range that reaches far down / right spills (or walks) millions of cells
+    if s.contains(':') {
+        let mut run = 0;
+        for ch in s.chars() {
+            if ch.is_ascii_digit() {
+                run += 1;
+                if run >= 4 {
+                    return true;
+                }
+            } else {
+                run = 0;
+            }
+        }
+        let up = s.to_ascii_uppercase();
+        if up.contains("XF") || up.contains("ZZ") {
+            return true;
+        }
+    }
     false
 }
 
@@ -336,6 +354,7 @@ fn guarded<F: FnOnce() -> u64>(op: &str, f: F) -> Result<u64, (String, String)> 
 fn eval_crash(req: &str) -> ImplOut {
     let f: Vec<&str> = req.split(' ').collect();
     let op = f[1];
+    let t0 = std::time::Instant::now();
     let (calls, tag): (Result<u64, (String, String)>, String) = match op {
         "parse" => {
             let mode = f[2];
@@ -401,7 +420,7 @@ fn eval_crash(req: &str) -> ImplOut {
                     }
                 })
             });
-            if res.is_err() {
+            if res.is_err() || t0.elapsed().as_millis() > 100 {
                 MODELS.with(|m| m.borrow_mut().remove(&key));
             }
             (res, format!("op:{op}"))
@@ -452,7 +471,7 @@ fn eval_crash(req: &str) -> ImplOut {
                     2
                 })
             });
-            if res.is_err() {
+            if res.is_err() || t0.elapsed().as_millis() > 100 {
                 UMODELS.with(|m| m.borrow_mut().remove(&key));
             }
             (res, "op:uinput".to_string())
